@@ -9,6 +9,7 @@ use debruijn::{DnaSlice, Kmer, Vmer};
 enum Score {
     Tab(Vec<usize>),
     Lin(usize, usize, usize),
+    Big(usize, usize),
     Const,
 }
 
@@ -19,6 +20,10 @@ fn parse_score(s: &str) -> Score {
         ("lin", Some(t)) => {
             let v = nat_list(t);
             Score::Lin(v[0], v[1], v[2])
+        }
+        ("big", Some(t)) => {
+            let v = nat_list(t);
+            Score::Big(v[0], v[1])
         }
         ("const", _) => Score::Const,
         _ => panic!("bad score"),
@@ -31,6 +36,7 @@ fn scan_on<P: Kmer, V: Vmer>(seq: &V, k: usize, score: &Score) -> String {
         match score {
             Score::Tab(t) => t[r],
             Score::Lin(a, b, m) => ((r * a + b) % 1000003) % m,
+            Score::Big(a, b) => { let x = (r * a + b) % 1000003; x * 4294967296 + (1000003 - x) }
             Score::Const => 7,
         }
     };
@@ -105,6 +111,8 @@ pub fn gen(rng: &mut Rng, tier: &str) -> String {
         format!("tab:{}", show_nat_list(&t))
     } else if rng.chance(1, 8) {
         "const".to_string()
+    } else if rng.chance(1, 5) {
+        format!("big:{},{}", rng.range(1, 1 << 20), rng.below(1 << 20))
     } else {
         let m = *rng.pick(&[1usize, 2, 3, 5, 17, 1000, 1000003]);
         format!("lin:{},{},{}", rng.range(1, 1 << 20), rng.below(1 << 20), m)
